@@ -765,8 +765,9 @@ register("C04", title="exactly-once, in-order resume", pkg="./internal/api",
 
 
 register("C05", title="acknowledged messages survive crashes and fail-over", pkg=".",
-         rule_more='senders re-post every fourth acknowledged id; a client changes its nickname every few ms; Persist of the node starts 0/25/60 ms late; in-place raft.Restore (writes quiesced); live and re-fetched streams compared by id and text (numeric 003 masked); cluster: a leader failure under load opens every round; cluster -lag: a follower is away while ~10700 messages are acknowledged, the others snapshot, it is brought back by InstallSnapshot with a request open across the installation and must deliver everything once',
+         rule_more='senders re-post every fourth acknowledged id; a client changes its nickname every few ms; Persist of the node starts 0/25/60 ms late; in-place raft.Restore (writes quiesced); live and re-fetched streams compared by id and text (numeric 003 masked); cluster: a leader failure under load opens every round; cluster -lag: a follower is away while ~10700 messages are acknowledged, the others snapshot, it is brought back by InstallSnapshot with a request open across the installation and must deliver everything once; TestVerifC05Lagging: a single-node leader whose state machine is held while a client posts and repeats the POST (first copy in the log, not applied)',
          parts=[{"name": "main", "test": "^TestVerifC05A$", "children": {"quick": 6, "thorough": 16}, "cases": {"quick": 1, "thorough": 12}},
+                {"pkg": "./internal/api", "name": "lagging_node", "test": "^TestVerifC05Lagging$", "children": {"quick": 2, "thorough": 8}, "cases": {"quick": 8, "thorough": 60}},
                 {"cluster": True, "children": {"quick": 2, "thorough": 8}, "cases": {"quick": 1, "thorough": 5},
                  "race": {"quick": False, "thorough": True}, "timeout": {"quick": 500, "thorough": 2400}},
                 {"cluster": True, "cluster_args": ["-lag"], "children": {"quick": 1, "thorough": 3}, "cases": {"quick": 1, "thorough": 1},
